@@ -12,3 +12,12 @@ dsl.share('C19', ['polynomial2bezier', 'polynomial2bezier_rejects_other_orders',
 # the root finder's filter: every property whose completeness is stated relative to it
 for _p in ('C08', 'C12', 'C13'):
     dsl.share(_p, ['polyroots_keeps_isolated_roots', 'polyroots01_filters_and_keeps'])
+# C15 demands that tangent and curvature transform with the curve: the image of a segment under
+# translate / rotate / scale is the segment of the image points (C10), and tangent and curvature
+# are derivatives of the point function, so they follow it.  The transform contracts are checked
+# by C15's command too; the covariance itself is sampled in c15.py.
+dsl.share('C15', ['translated_%s' % n for n in ('Line', 'QuadraticBezier', 'CubicBezier')] +
+          ['rotated_%s' % n for n in ('Line', 'QuadraticBezier', 'CubicBezier')] +
+          ['scaled_%s' % n for n in ('Line', 'QuadraticBezier', 'CubicBezier')] +
+          ['arc_translate_passes_the_translated_endpoint_parameters', 'arc_rotate_passes_the_rotated_endpoint_parameters',
+           'arc_uniform_scale_passes_the_scaled_endpoint_parameters'])
